@@ -107,6 +107,16 @@ def gen(tier, seed):
     pk, sig, m = honest[0]
     for name, S in (('0', 0), ('1', 1), ('L-1', L - 1), ('L', L), ('L+1', L + 1), ('2^252', 1 << 252), ('2^253-1', (1 << 253) - 1), ('2^255-1', (1 << 255) - 1), ('2^256-1', (1 << 256) - 1)):
         yield V(pk, sig[:32] + S.to_bytes(32, 'little'), m, 'S-edge/%s' % name)
+    # S values around the limb boundaries of the canonical-scalar test (2^252 + x*2^(56j) + y, 21-bit boundaries, L - 1 + 2^k)
+    c_ = L - (1 << 252)
+    gap = []
+    for j in range(5):
+        for a in (1, 1 << 27, (1 << 56) - 1):
+            for b in (0, c_ - 1, c_, c_ + 1):
+                gap.append(((1 << 252) + (a << (56 * j) if j < 4 else a << 196) + b) % (1 << 256))
+    gap += [L - 1 + (1 << k) for k in range(0, 256, 5)] + [(1 << 252) + (1 << k) for k in range(0, 252, 5)]
+    for S in gap:
+        yield V(pk, sig[:32] + S.to_bytes(32, 'little'), m, 'S-gap/%d' % (S % 9973))
     # small-order public keys, all encodings, with forgeries satisfying the equation
     so = small_order_points()
     for A in so:
@@ -120,6 +130,12 @@ def gen(tier, seed):
                     if s + L < (1 << 256):
                         yield V(pk, fg[0][:32] + (s + L).to_bytes(32, 'little'), fg[1], 'forgery-S+L/%s' % ename)
             yield V(pk, rng.bytes(64), rng.bytes(5), 'small-order-key-random-sig/%s' % ename)
+            # forgeries whose non-canonical twin S + L falls into the limb-boundary gaps of the canonical test
+            for g in [g for g in gap if L <= g < 2 * L][(len(ename) * 7) % 5::5][:6]:
+                fg = forge(rng, pk, A, g - L)
+                if fg:
+                    yield V(pk, fg[0], fg[1], 'forgery-small-order-key/%s/gap-twin' % ename)
+                    yield V(pk, fg[0][:32] + g.to_bytes(32, 'little'), fg[1], 'forgery-S+L-gap/%s' % ename)
     # R small order / non canonical with honest keys
     sd = rng.bytes(32); pk = o.ed_sign(sd, b'')[0]
     for A in so:
